@@ -747,6 +747,8 @@ class Emitter:
         self.typeinfos = {}  # name -> id
         self.storage_votes = {}
         self._payload_cache = {}
+        self.final_layouts = False
+        self.last_raw = None
         self.warnings = []
         self.info = {'functions': [], 'externals': [], 'stubs': [], 'overridden': []}
 
@@ -1101,6 +1103,7 @@ class Emitter:
 
     # ---- expression helpers
     def gep_expr(self, sty, ops, static=False):
+        self.last_raw = None
         base = ops[0]
         b = self.cexpr(base, static)
         cur = sty
@@ -1147,6 +1150,7 @@ class Emitter:
             else:
                 raise ValueError('gep through ' + cur.k)
         self.ct(cur)
+        self.last_raw = raw
         if raw is not None and lv is raw:
             return '((%s*)&%s)' % (self.ct(cur), lv)
         return '(&%s)' % lv
@@ -1395,6 +1399,7 @@ class FnTranslator:
         self.phis = {}     # block -> [(dest, ty, [(val, pred)])]
         self.lin = {}
         self.abuf = {}
+        self.raw_lv = {}
         self.tmpn = 0
 
     def ret_default(self):
@@ -2033,7 +2038,10 @@ class FnTranslator:
             so = self.gep_storage(ins)
             if so is not None:
                 self.abuf[d] = so
-            self.setl(d, self.T.ptr(cur), em.gep_expr(ins['sty'], ins['ops']))
+            gexpr = em.gep_expr(ins['sty'], ins['ops'])
+            if so is not None and em.last_raw is not None:
+                self.raw_lv[d] = em.last_raw
+            self.setl(d, self.T.ptr(cur), gexpr)
         elif op == 'select':
             a = ins['a']
             self.setl(d, a.ty, '(%s ? %s : %s)' % (em.cexpr(ins['c']), em.cexpr(a), em.cexpr(ins['b'])))
@@ -2230,20 +2238,38 @@ class FnTranslator:
         """resolve pointer value pv (i8* or typed) to (lvalue_expr_of_T, T, byte_offset) covering nbytes, or None"""
         em = self.em
         v = pv
-        for _ in range(4):
+        extra = 0   # constant byte offset accumulated through `gep i8` steps
+        for _ in range(6):
             if v.k != 'local':
                 break
             d = self.defs.get(v.a)
-            if d is None or d['op'] != 'bitcast' or d['v'].ty.k != 'ptr':
+            if d is None:
                 break
-            v = d['v']
-        if v.ty.k != 'ptr':
+            if d['op'] == 'bitcast' and d['v'].ty.k == 'ptr':
+                v = d['v']
+                continue
+            if d['op'] == 'getelementptr' and d['sty'].k == 'int' and d['sty'].w == 8 and len(d['ops']) == 2 and d['ops'][1].k == 'int':
+                extra += self._sint(d['ops'][1])
+                v = d['ops'][0]
+                continue
+            break
+        if v.ty.k != 'ptr' or extra < 0:
+            return None
+        if v.k == 'local' and v.a in self.raw_lv and v.a in self.abuf and em.final_layouts:
+            st, off = self.abuf[v.a]
+            off += extra
+            for moff, mt in em.storage_payload(st):
+                msz = layout(mt)[0]
+                if moff <= off and off + nbytes <= moff + msz:
+                    return ('%s.m%d' % (self.raw_lv[v.a], moff), mt, off - moff)
             return None
         t = v.ty.elem
         if t.k in ('void', 'fn') or (t.k == 'struct' and t.opaque) or (t.k == 'int' and t.w == 8):
             return None
-        if layout(t)[0] >= nbytes:
-            return ('(*%s)' % em.cexpr(v), t, 0)
+        if layout(t)[0] >= extra + nbytes:
+            return ('(*%s)' % em.cexpr(v), t, extra)
+        if extra:
+            return None
         # the region extends past *v: look for the enclosing aggregate through the GEP that produced v
         if v.k == 'local':
             d = self.defs.get(v.a)
@@ -2355,6 +2381,50 @@ class FnTranslator:
             self.body.append('%s = %s;' % (p1, src))
         return True
 
+    def scalar_ptr(self, pv):
+        """strip bitcasts: returns (value, scalar element type or None)"""
+        v = pv
+        for _ in range(4):
+            t = v.ty.elem if v.ty.k == 'ptr' else None
+            if t is not None and (t.k in ('float', 'double', 'ptr') or (t.k == 'int' and t.w in (16, 32, 64))):
+                return v, t
+            if v.k != 'local':
+                break
+            d = self.defs.get(v.a)
+            if d is None or d['op'] != 'bitcast' or d['v'].ty.k != 'ptr':
+                break
+            v = d['v']
+        return pv, None
+
+    def typed_array_copy(self, args):
+        """constant-size copy between arrays of one scalar type (vector<int> = {..}, vector growth of POD elements):
+        element-wise typed assignments keep the contents propagatable constants"""
+        n = args[2]
+        if n.k != 'int' or not (0 < n.a <= 512):
+            return False
+        dv, dt = self.scalar_ptr(args[0])
+        sv, st = self.scalar_ptr(args[1])
+        t = dt or st
+        if t is None:
+            return False
+        if dt is not None and st is not None and (layout(dt)[0] != layout(st)[0] or (dt.k == 'ptr') != (st.k == 'ptr') or
+                                                  (dt.k in ('float', 'double')) != (st.k in ('float', 'double'))):
+            return False
+        esz = layout(t)[0]
+        if n.a % esz != 0 or n.a // esz > 64:
+            return False
+        em = self.em
+        ct = em.ct(t)
+        de = em.cexpr(args[0] if dt is None else dv)
+        se = em.cexpr(args[1] if st is None else sv)
+        cnt = n.a // esz
+        self.tmpn += 1
+        k = self.tmpn
+        lines = ['%s __c%d_%d = ((%s*)%s)[%d];' % (ct, k, i, ct, se, i) for i in range(cnt)]
+        lines += ['((%s*)%s)[%d] = __c%d_%d;' % (ct, de, i, k, i) for i in range(cnt)]
+        self.body.append('{ ' + ' '.join(lines) + ' }')
+        return True
+
     def intrinsic(self, name, ins):
         em = self.em
         args = [v for v, at in ins['args']]
@@ -2368,6 +2438,8 @@ class FnTranslator:
             return None
         if n1 == 'memcpy' or n1 == 'memmove':
             if n1 == 'memcpy' and self.typed_memcpy(args):
+                return None
+            if self.typed_array_copy(args):
                 return None
             return '__ir2c_%s((void*)%s, (const void*)%s, %s)' % (n1, a[0], a[1], a[2])
         if n1 == 'memset':
@@ -2494,7 +2566,15 @@ def main():
     for f in mod.funcs.values():
         if f.lines is not None and 'M_' + cid(f.name) in em.modeled:
             em.override.add(f.name)
-    run(em, args)
+    # pass 1 collects the (offset -> type) votes for storage buffers; pass 2 translates with the final payload layouts
+    em.final_layouts = False
+    run(em, args, write=False)
+    em2 = Emitter(mod, args)
+    em2.modeled = em.modeled
+    em2.override = em.override
+    em2.storage_votes = em.storage_votes
+    em2.final_layouts = True
+    run(em2, args)
 
 
 # typeinfo helpers -------------------------------------------------------------------------------
@@ -2567,7 +2647,7 @@ Emitter.ti_bases = ti_bases
 Emitter.exc_match_expr = exc_match_expr
 
 
-def run(em, args):
+def run(em, args, write=True):
     mod = em.m
     entries = list(args.entry)
     for e in entries:
@@ -2697,6 +2777,8 @@ def run(em, args):
     out.append('}')
     for e in entries:
         out.append('void __ir2c_entry_%s(void) { __ir2c_global_init(); %s(); }' % (cid(e), em.gname(e)))
+    if not write:
+        return
     open(args.out, 'w').write('\n'.join(out) + '\n')
     em.info['typeinfos'] = em.typeinfos
     em.info['n_functions'] = len(fn_texts)
